@@ -133,6 +133,15 @@ func Install(c *Ctl) func() {
 	return func() { go9p.VerifHook.Store(nil) }
 }
 
+// Signal injects an event from the harness (so that a hold can wait for the
+// harness: UntilWho "harness").
+func (c *Ctl) Signal(who, point string) {
+	c.mu.Lock()
+	c.seen[who+"@"+point]++
+	c.cond.Broadcast()
+	c.mu.Unlock()
+}
+
 // Seen reports how often who passed point.
 func (c *Ctl) Seen(who, point string) int {
 	c.mu.Lock()
